@@ -123,6 +123,19 @@ func main() {
 				}
 				ch = nextChoices(r.taken, r.arities)
 			}
+			// one get_peers datagram held inside WriteTo while StopTraversing / Close is called: nothing may be
+			// announced before the held query has returned (the traversal cannot have stopped)
+			for gate := 0; gate < 4; gate++ {
+				for at := 1; at <= steps+1 && seg < lim-(*maxExh)/3; at++ {
+					sc := base
+					sc.Opt = []int{0, 2, 6, 8, 1}[(gate+at)%5]
+					sc.Gate, sc.StopKind, sc.StopAt = gate, 2, at
+					if (at+gate)%3 == 2 {
+						sc.StopKind = 1
+					}
+					play(sc)
+				}
+			}
 			// every stop kind at every point, every order
 			for kind := 1; kind <= 3; kind++ {
 				for at := 0; at <= steps+3; at++ {
